@@ -161,7 +161,7 @@ PROPS.update({
                     ["mpxscen", "mpxprobe"],
                     extra={"assumptions": ["one Free per channel object by its owner (the user on the client side, the handler runner on the server side); a second Free is API misuse and panics by design",
                                            "atomic operations of sync/atomic are linearizable"]}),
-    "C07": mpx_prop("C07", ["inv_run", "conservation", "ack_rule", "admit_bound", "only_sender_debits", "no_deadlock", "quiescent_admits", "outstanding_bounded", "close_exempt", "blocked_send_admitted"],
+    "C07": mpx_prop("C07", ["inv_run", "conservation", "ack_rule", "admit_bound", "only_sender_debits", "no_deadlock", "quiescent_admits", "outstanding_bounded", "close_exempt", "blocked_send_admitted", "blocked_send_admitted_reachable", "send_completes"],
                     ev("state_decrementSendWindow", "state_receiveWindow", "channel_Send", "channel_SendAndClose", "channel_ReceiveAsync"),
                     [{"name": "flow", "gen": ["{bin}/mpxflow", "gen", "{seed}", "{tier}", "{stats}"], "go": ["{bin}/mpxflow"], "lean": ["{lean}/flowdriver"],
                       "confirm": {"MPXFLOW_SETTLE_MS": "300", "MPXFLOW_RESETTLE_MS": "4000"}}],
